@@ -513,6 +513,7 @@ func runC02(r *Run) {
 	}
 	checkMinus(r)
 	checkFloor(r, vs)
+	checkFeePrice(r)
 	if handlersWith < 15 {
 		fail("C02.signguard: only %d handlers with a message amount reaching the data layer (expected >= 18)", handlersWith)
 	}
@@ -840,5 +841,77 @@ func checkFloor(r *Run, vs map[*ssa.Function][]int) {
 	}
 	if n < 7 {
 		fail("C02.floor: only %d credited shares found (expected 8)", n)
+	}
+}
+
+// ---------------------------------------------------------------------------------------------
+// C02.fee: the signed gas price is bounded below (ValidateFee) on every path to Validate's success return of every
+// handler whose fee step charges price x gas.
+func checkFeePrice(r *Run) {
+	p := r.P
+	vf := p.MustFn("action.ValidateFee")
+	// ValidateFee itself: nil only behind minFee <= price
+	edges := condEdges(vf, func(cond ssa.Value, _ *ssa.If) int {
+		v, flip := stripNot(cond)
+		bo, ok := v.(*ssa.BinOp)
+		if !ok {
+			return 0
+		}
+		c, ok := bo.X.(*ssa.Call)
+		k, isK := intConst(bo.Y)
+		if !ok || !isK || calleeName(c) != "(*math/big.Int).Cmp" {
+			return 0
+		}
+		isPrice := func(v ssa.Value) bool {
+			return sameQuantity(v, func(y ssa.Value) bool { return strings.HasSuffix(pathOf(y).FieldString(), "Price.Value") || strings.HasSuffix(pathOf(y).FieldString(), "Price") })
+		}
+		isMin := func(v ssa.Value) bool {
+			return derivesFrom(v, func(y ssa.Value) bool { cc, ok := y.(*ssa.Call); return ok && calleeName(cc) == "(*data/fees.FeeOption).MinFee" })
+		}
+		pol := 0
+		if isPrice(c.Call.Args[0]) && isMin(c.Call.Args[1]) {
+			pol = cmpLowerBound(bo.Op, k)
+		} else if isPrice(c.Call.Args[1]) && isMin(c.Call.Args[0]) {
+			pol = cmpLowerBound(mirror(bo.Op), -k)
+		}
+		if flip {
+			pol = -pol
+		}
+		return pol
+	})
+	live := reachWithout(vf, edges)
+	bad := len(edges) == 0
+	for _, ret := range returnsOf(vf) {
+		if returnMayBeSuccess(ret) && live[ret.Block()] {
+			bad = true
+		}
+	}
+	r.Check(!bad, "C02.fee", fname(vf), "nil only when price >= configured minimum", "every nil return lies behind the comparison with MinFee()", "ValidateFee accepts a price below the minimum (a negative price turns the fee into a payment to the sender)", p.pos(vf.Pos()))
+	charging := map[string]bool{"action.BasicFeeHandling": true, "action.StakingPayerFeeHandling": true, "action.ContractFeeHandling": true}
+	n := 0
+	seen := map[*ssa.Function]bool{}
+	for _, h := range p.Handlers() {
+		if h.Fee == nil || h.Validate == nil || seen[h.Validate] {
+			continue
+		}
+		seen[h.Validate] = true
+		charges := false
+		for _, f := range handlerBody(h.Fee) {
+			allInstrs(f, func(ins ssa.Instruction) {
+				if charging[calleeName(ins)] {
+					charges = true
+				}
+			})
+		}
+		if !charges {
+			r.Info("C02.fee", h.Name, "fee step", "does not charge price x gas")
+			continue
+		}
+		n++
+		r.guardOb("C02.fee", h.Validate, "Validate's success return", successReturns(h.Validate), errCallG("fee price validated", []string{"action.ValidateFee"}, nil, fieldSuffix("Fee")),
+			"a transaction with a gas price below the minimum (or negative) is accepted: the fee step then pays the sender")
+	}
+	if n < 30 {
+		fail("C02.fee: only %d charging handlers (expected about 39)", n)
 	}
 }
